@@ -717,7 +717,9 @@ type pos struct {
 
 func dirtyPositions(ro *mReorg, r *hx.Rng) []pos {
 	n := len(ro.fullLog)
-	out := []pos{{1, 0, "log-created-empty"}, {1, 1, "log-cut-1"}, {1, n - 7, "log-cut-to-7-bytes"}}
+	// the last variant: the write stopped right after the measurement name (2 bytes of length +
+	// the name); a measurement name may end with the bytes of the log trailer
+	out := []pos{{1, 0, "log-created-empty"}, {1, 1, "log-cut-1"}, {1, n - 7, "log-cut-to-7-bytes"}, {1, n - 2 - len(ro.mst), "log-cut-after-name"}}
 	if n > 20 {
 		out = append(out, pos{1, 9 + r.Intn(n-18), "log-cut-random"})
 	}
@@ -760,6 +762,9 @@ func thin(ps []pos, max int) []pos {
 	}
 	return out
 }
+
+// a measurement whose name ends with the bytes of the compact-log trailer
+const trailerName = "2021A5A5"
 
 var logNames = []string{"1111111111111111-0000000000000001", "5555555555555555-0000000000000002", "9999999999999999-0000000000000003", "dddddddddddddddd-0000000000000004"}
 
@@ -914,7 +919,7 @@ func runMultiHistory(c *hx.Ctx, r *hx.Rng, idx int, workers int, thorough bool) 
 	nParts := []int{1, 2}[r.Intn(2)]
 	msts := []string{"ma", "mb"}
 	if r.Chance(40) {
-		msts = append(msts, "mc")
+		msts = append(msts, "mc"+trailerName)
 	}
 	rc := &mRecorder{root: root, snaps: filepath.Join(imgRoot, "snaps"), notes: map[string]int{}}
 	theMux.set(root, rc)
@@ -1131,6 +1136,9 @@ func runMultiHistory(c *hx.Ctx, r *hx.Rng, idx int, workers int, thorough bool) 
 			dps := dirtyPositions(a, r)
 			if !thorough {
 				dps = []pos{dps[nPairs%len(dps)], dps[(nPairs+1)%len(dps)]}
+				if strings.HasSuffix(a.mst, trailerName) {
+					dps[1] = dirtyPositions(a, r)[3]
+				}
 			}
 			for di, dp := range dps {
 				for mi, mp := range thin(midPositions(b), maxMid) {
@@ -1183,7 +1191,7 @@ func runMultiHistory(c *hx.Ctx, r *hx.Rng, idx int, workers int, thorough bool) 
 						continue
 					}
 					names := [][3]string{{logNames[0], logNames[1], logNames[2]}, {logNames[1], logNames[0], logNames[2]}, {logNames[3], logNames[0], logNames[1]}}[where]
-					dp := dirtyPositions(a, r)[r.Intn(3)]
+					dp := dirtyPositions(a, r)[r.Intn(4)]
 					x, y := mb[r.Intn(len(mb))], md[r.Intn(len(md))]
 					plans = append(plans, plan{picks: []pick{{a, dp.k, dp.cut, names[0]}, {b, x.k, 0, names[1]}, {d, y.k, 0, names[2]}},
 						kind: fmt.Sprintf("dirty+mid+mid/dirty-%s", []string{"first", "between", "last"}[where])})
@@ -1212,7 +1220,7 @@ func runMultiHistory(c *hx.Ctx, r *hx.Rng, idx int, workers int, thorough bool) 
 	}
 	limit := 90
 	if thorough {
-		limit = 600
+		limit = 400
 	}
 	if v := c.Arg("multilimit", ""); v != "" {
 		fmt.Sscan(v, &limit)
